@@ -72,3 +72,50 @@ func H_C15_json() {
 	vxrt.Assert(vxrt.Eq(compactRef(string(out)), want), "C15:only-the-target-replaced")
 	vxrt.Assert(vxrt.Eq(string(caller), doc), "C15:caller-bytes-untouched")
 }
+
+// H_C15_multi: several paths in one matcher, repeated and nested paths, and
+// the Type matcher: paths take effect left to right on the running document.
+func H_C15_multi() {
+	v := leaf("value")
+	doc := `{"a":` + v + `,"o":{"k":1,"c":2}}`
+	caller := []byte(doc)
+	typeName := func(val string) string {
+		switch {
+		case val[0] == '"':
+			return "string"
+		case val == "true":
+			return "bool"
+		case val == "null":
+			return "<nil>"
+		}
+		return "float64"
+	}
+	var out []byte
+	var errs []match.MatcherError
+	want := ""
+	scenario := vxrt.Choice("scenario", 4)
+	if (scenario == 1 || scenario == 3) && v == "null" {
+		// Type[any] rejects null (a nil value implements no type): an error, not a replacement
+		_, errs := match.Type[any]("a").JSON(caller)
+		vxrt.Assert(len(errs) == 1, "C15:type-matcher-rejects-null")
+		return
+	}
+	switch scenario {
+	case 0: // two distinct paths
+		out, errs = match.Any("a", "o.k").JSON(caller)
+		want = `{"a":"<Any value>","o":{"k":"<Any value>","c":2}}`
+	case 1: // the same path twice with Type: the second application sees the first placeholder
+		out, errs = match.Type[any]("a", "a").JSON(caller)
+		want = `{"a":"<Type:string>","o":{"k":1,"c":2}}`
+	case 2: // a parent and then its child: the child no longer exists
+		out, errs = match.Type[any]("o", "o.k").ErrOnMissingPath(false).JSON(caller)
+		want = `{"a":` + v + `,"o":"<Type:map[string]interface {}>"}`
+	default: // Type on the symbolic value
+		out, errs = match.Type[any]("a").JSON(caller)
+		want = `{"a":"<Type:` + typeName(v) + `>","o":{"k":1,"c":2}}`
+	}
+	vxrt.Assert(len(errs) == 0, "C15:existing-path-no-error")
+	vxrt.Assert(gjson.ValidBytes(out), "C15:result-is-valid-json")
+	vxrt.Assert(vxrt.Eq(compactRef(string(out)), want), "C15:paths-take-effect-left-to-right")
+	vxrt.Assert(vxrt.Eq(string(caller), doc), "C15:caller-bytes-untouched")
+}
